@@ -117,6 +117,26 @@ def gen_history(d, rng, n):
     return ids, commits, feats
 
 
+def add_grafts(d, ids, commits, rng):
+    """graft points on a dulwich *sender* (info/grafts hiding real parents); written just before the transfer and removed right after it,
+    so that only the code under observation ever sees them (C git peers honour grafts themselves)."""
+    lines = []
+    for m in rng.sample(commits[1:], min(2, len(commits) - 1)):
+        c = ids[m]
+        fake = [ids[x] for x in rng.sample(commits, rng.choice([0, 1])) if ids[x] != c]
+        lines.append(b" ".join([c] + fake))
+    os.makedirs(os.path.join(d, "info"), exist_ok=True)
+    with open(os.path.join(d, "info", "grafts"), "wb") as f:
+        f.write(b"\n".join(lines) + b"\n")
+
+
+def drop_grafts(d):
+    try:
+        os.unlink(os.path.join(d, "info", "grafts"))
+    except OSError:
+        pass
+
+
 def refs_of(d):
     out = {}
     for line in core.git(["for-each-ref", "--format=%(refname) %(objectname)"], cwd=d).stdout.splitlines():
@@ -338,6 +358,9 @@ def run_fetch(case):
         wire = []
         got = {}
         srv = None
+        if transport != "subprocess-upload-pack" and len(commits) > 3 and rng.random() < 0.15:
+            add_grafts(sd, ids, commits, rng)
+            feats.add("sender-has-grafts")
         try:
             if transport in ("local", "local-fetch_pack"):
                 target = Repo(rd)
@@ -434,7 +457,10 @@ def run_fetch(case):
         finally:
             if srv:
                 srv.close()
+            drop_grafts(sd)
         stats["transfers"] = 1
+        if "sender-has-grafts" in feats:
+            stats["transfers_from_a_sender_with_grafts"] = 1
         if got:
             judge_receiver(tag, sd, rd, got, viol, stats, shallow=(transport == "depth"))
         for w in wire:
